@@ -97,7 +97,11 @@ pub fn markdown_doc(prose: &str, rng: &mut Rng) -> String {
         let fill = *rng.pick(MULTIBYTE_FILL);
         let fill2 = *rng.pick(MULTIBYTE_FILL);
         let body: String = if b == prose_at { prose.to_string() } else { format!("Plain words {fill} here.") };
-        let inline = match rng.below(12) {
+        let inline = match rng.below(15) {
+            // wikilinks: with a label, without, with an empty one (the words behind it repeat the word before it)
+            12 => format!("[[Page{fill}|]] is what it is {body}"),
+            13 => format!("{body} [[Page|{fill2}]] and [[Other]] then"),
+            14 => format!("# [[{fill}|]] {body} {body}"),
             0 => format!("{body} <kbd title=\"{fill}\">Enter</kbd> after."),
             1 => format!("{body} <!-- {fill} --> after."),
             2 => format!("`{fill}` {body}"),
@@ -419,8 +423,17 @@ pub fn typst_calls(rng: &mut Rng, prose: &str) -> String {
         match rng.below(5) { 0 | 1 => format!("{}: {val}", named[rng.below(named.len())]), 2 => named[rng.below(named.len())].to_string(), _ => val }
     };
     let mut out = String::new();
+    // set and show rules (selector / transform, target / arguments / condition), lines ending in CRLF or in a blank
+    let nl = *rng.pick(&["\n", "\r\n", " \n", "\t\n"]);
+    match rng.below(6) {
+        0 => out.push_str(&format!("#show \"{}\": [{} ]{nl}", ["the", "e.g.", "A. Smith", "st", "teh"][rng.below(5)], ["the", "i.e.", "Dr. A.", "2", "An teh"][rng.below(5)])),
+        1 => out.push_str(&format!("#show heading: it => [Big #it.body]{nl}")),
+        2 => out.push_str(&format!("#set par(justify: true) if mode == \"final draft\"{nl}")),
+        3 => out.push_str(&format!("#show \"teh\": \"the\"{nl}#let (total) = 5{nl}")),
+        _ => {}
+    }
     for i in 0..rng.range(1, 3) {
-        if i > 0 || rng.chance(1, 2) { out.push_str(prose); out.push(' '); }
+        if i > 0 || rng.chance(1, 2) { out.push_str(prose); out.push_str(if rng.chance(1, 3) { nl } else { " " }); }
         let f = funcs[rng.below(funcs.len())];
         let n = rng.range(0, 4);
         let args: Vec<String> = (0..n).map(|_| arg(rng, 0)).collect();
